@@ -130,9 +130,12 @@ pub fn cmd_writegen(a: &[&str]) -> String {
                     log2.borrow_mut().push(format!("store{}={} mem_gen_before{}={} mem_bound_before{}={}", nstore, value, nstore, mem_gen, nstore, mem_bound));
                 }
             })));
+            // the records differ in every field from one write to the next and their as_of does not increase monotonically (the daemon's
+            // placeholder after a restart is older than what the segment holds): the protocol may not depend on what is written
+            let a_s = [100i64, 50, 200, 10, 300][(i - 1) % 5];
             let ceb = ClockErrorBound::new(
-                libc::timespec { tv_sec: 7, tv_nsec: 7 },
-                libc::timespec { tv_sec: 7, tv_nsec: 7 },
+                libc::timespec { tv_sec: a_s, tv_nsec: 7 },
+                libc::timespec { tv_sec: a_s + 1000, tv_nsec: 7 },
                 776 + i as i64,
                 7,
                 7,
